@@ -91,7 +91,7 @@ def build() -> Check:
         if ot == "CONTEXT" and st == ABSENT:
             ck.ob("R3.parent-start-first", c, not badp, (badp[0][0] + ": " + trace_sig(badp[0][1])) if badp else "", cell=st)
     ck.floor("cells", n_cells, 25)
-    ck.floor("updates_judged", n_updates, 300)
+    ck.floor("updates_judged", n_updates, 60)
 
     # R4 execution record ---------------------------------------------------------------------
     wt = wrapper_traces(pm, faults=True)
